@@ -65,7 +65,7 @@ ASSUME = ["refs/keplerref.py (eccentric-anomaly-difference f and g propagation) 
           "IOD lower query bound (detection time) is kept >= 1 s before the stored observation (equality would be decided by one ulp of a Julian date)"]
 SHARDS = {"quick": 4, "thorough": 16}
 BUDGET_S = {"quick": 60, "thorough": 560}
-DECIDING = ["lambert_closure", "lambert_velocity", "lambert_sense", "radar_inversion", "iod_converged", "iod_position", "iod_velocity"]
+DECIDING = ["lambert_closure", "lambert_velocity", "lambert_other_mu", "lambert_sense", "radar_inversion", "iod_converged", "iod_position", "iod_velocity"]
 MANIFEST = {
     "technique": "runtime monitoring: direct drive of lambertUniversal/lambertBattin, radarObs2eciPosition on real Observation objects and "
                  "LambertIOD.determineNewEstimateState on a real sqlite database, compared with closed-form two-body propagation (refs/keplerref)",
@@ -204,6 +204,20 @@ def chk_lambert(ctx, arc, solvers=SOLVERS):
                       f"{name} velocities differ from the given arc's by {e1:.3e} / {e2:.3e} km/s (budget {B * sp1:.1e}) on {desc}", w, mon="lambert_velocity")
         else:
             ctx.mon("lambert_velocity")
+        # the solver's optional gravitational parameter: with mu' = s*mu the same two positions are joined in tof/sqrt(s) by sqrt(s)*v
+        if turned and int(arc["tof"] * 1e3) % 5 == 0:
+            from resonaate.physics.bodies.earth import Earth
+
+            sc = (0.5, 2.0, 1.001, 4902.800066 / 398600.4418)[int(arc["a"] * 10) % 4]
+            try:
+                u1, u2 = _solver(name)(x1[:3].copy(), x2[:3].copy(), tof / math.sqrt(sc), sense, mu=Earth.mu * sc)
+                u1, u2 = np.asarray(u1, dtype=float).reshape(3) / math.sqrt(sc), np.asarray(u2, dtype=float).reshape(3) / math.sqrt(sc)
+                d1, d2 = float(np.linalg.norm(u1 - v1)), float(np.linalg.norm(u2 - v2))
+                ctx.check(d1 <= 2 * B * sp1 and d2 <= 2 * B * sp2, f"lambert-{name}-other-mu",
+                          f"{name} with mu = {sc:.6g} x Earth and tof/sqrt(s): velocities / sqrt(s) differ from the Earth-mu solution by {d1:.3e} / {d2:.3e} km/s (budget {2 * B * sp1:.1e}) on {desc}",
+                          {**w, "mu_scale": sc}, mon="lambert_other_mu")
+            except Exception as ex:  # noqa: BLE001
+                ctx.check(False, f"lambert-{name}-other-mu-raises", f"{name} with mu = {sc:.6g} x Earth raised {type(ex).__name__}: {ex} on {desc}", {**w, "mu_scale": sc}, mon="lambert_other_mu")
         # closure under independent propagation
         xr = np.concatenate([x1[:3], v1])
         if not (K.energy(xr) < 0.0):
